@@ -492,6 +492,54 @@ def _filter_shard(arg):
     return st
 
 
+def _collision_shard(tag):
+    """Two DIFFERENT scripts whose hashed values collide under this block's key: BIP158 keeps both (N counts scripts, the
+    second codes a zero delta).  The pair is found by search over p2wpkh scripts with the reference SipHash."""
+    from btclib.block.block_filter import BasicBlockFilter
+    from models.build import block_from, coinbase_tx, simple_tx
+
+    st = Stats()
+    # the block's hash does not depend on the prevout scripts, so the key is known before the pair is chosen
+    txs = [coinbase_tx(tag, [b"\x51"]), simple_tx(tag, [b"\x52"], prev_scripts_n=2)]
+    blk = block_from(txs, mine=False, time_s=1_600_000_000 + tag)
+    bh = blk.header.hash[::-1]
+    k0, k1 = int.from_bytes(bh[:8], "little"), int.from_bytes(bh[8:16], "little")
+    N = 4   # elements: 0x51 (coinbase), 0x52, and the two prevouts
+    F = N * 784931
+    seen = {}
+    pair = None
+    for j in range(200_000):
+        sc = b"\x00\x14" + j.to_bytes(20, "big")
+        v = (sip_ref(k0, k1, sc) * F) >> 64
+        if v in seen:
+            pair = (seen[v], sc)
+            break
+        seen[v] = sc
+    st.evals += 1
+    if pair is None:
+        st.outcomes["no-collision-found"] += 1
+        return st
+    st.nontrivial += 1
+    case = {"tag": tag, "colliding": [pair[0].hex(), pair[1].hex()]}
+    els = {b"\x51", b"\x52", pair[0], pair[1]}
+    exp_bytes, hashed = gcs_ref(bh[:16], els)
+    try:
+        f = BasicBlockFilter.from_block(blk, list(pair))
+    except Exception as e:  # noqa: BLE001
+        st.violation("C17/bip158/collision/filter-refused", case, repr(e)[:80], exp_bytes.hex())
+        return st
+    if f.serialize() != exp_bytes:
+        st.violation("C17/bip158/collision/filter-bytes", case, f.serialize().hex(), exp_bytes.hex())
+    for sc in els:
+        if f.match(sc) is not True or f.match_any([b"\x00\x14" + bytes(20), sc]) is not True:
+            st.violation("C17/bip158/collision/no-match-for-member", dict(case, script=sc.hex()), False, True)
+    g = BasicBlockFilter.parse(exp_bytes, blk.header.hash)
+    if g.serialize() != exp_bytes or sorted(g.element_hashes) != hashed:
+        st.violation("C17/bip158/collision/parse-roundtrip", case, g.serialize().hex(), exp_bytes.hex())
+    st.outcomes["collision-kept"] += 1
+    return st
+
+
 def _filters(ctx):
     scripts = [b"\x52", b"\x00\x14" + bytes(20), b"\x76\xa9\x14" + bytes(range(20)) + b"\x88\xac",
                b"\x51\x20" + bytes(range(32)), b"\x6a\x04test", b"", b"\x6a"]
@@ -504,7 +552,9 @@ def _filters(ctx):
     # duplicates weigh once
     combos.append(((scripts[0], scripts[0], scripts[1]), (scripts[1], scripts[1])))
     shards = shard_round_robin(combos, 32)
-    return ctx.pmap(_filter_shard, [(sh, 1 + (ctx.seed + i) % 7) for i, sh in enumerate(shards)])
+    st = ctx.pmap(_filter_shard, [(sh, 1 + (ctx.seed + i) % 7) for i, sh in enumerate(shards)])
+    st.merge(ctx.pmap(_collision_shard, list(range(1, ctx.pick(5, 17)))))
+    return st
 
 
 # ---------------------------------------------------------------- compact blocks (BIP152)
